@@ -199,7 +199,7 @@ _RE_TIME = re.compile(r"^Verification Time: ([0-9.]+)s")
 _RE_VERDICT = re.compile(r"^VERIFICATION:- (SUCCESSFUL|FAILED)")
 _RE_FAILED_FILE = re.compile(r'^ File: "(.*)", line (\d+), in (.*)$')
 
-_RE_OOM = re.compile(r"CBMC appears to have run out of memory|std::bad_alloc|[Oo]ut of memory|memory exhausted|"
+_RE_OOM = re.compile(r"CBMC appears to have run out of memory|Solver ran out|std::bad_alloc|[Oo]ut of memory|memory exhausted|"
                      r"memory allocation of \d+ bytes failed|Cannot allocate memory")
 _RE_CBMC_FAILED = re.compile(r"^CBMC failed|^CBMC timed out|CBMC crashed", re.M)
 # (pattern, reason) tried in order when the log contains no VERIFICATION verdict
